@@ -78,29 +78,51 @@ def r14_1(ctx, rc, only=None):
     ctx.E.func(RESERVE)
     ctx.E.func(RELEASE)
     sites = 0
-    for F in ctx.prog.funcs.values():
-        if F.cls != R.builder:
-            continue
+    prog = ctx.prog
+
+    def reserves(g):
+        return any(isinstance(h, Func) and h.qualname == RESERVE
+                   for c in prog.calls_in(g)
+                   for h in prog.resolve_call(c, g))
+    # a reservation made inside a recursion cycle (the cached-subtree walk
+    # and a per-file helper calling each other) is analysed over the whole
+    # cycle: every member is a root with the other members inlined
+    bfuncs = [f for f in prog.funcs.values() if f.cls == R.builder]
+    succ = {f.qualname: {g.qualname for c in prog.calls_in(f)
+                         for g in prog.resolve_call(c, f)
+                         if isinstance(g, Func) and g.cls == R.builder and
+                         not g.is_ctor_call} for f in bfuncs}
+
+    def reach_from(q):
+        seen, todo = set(), [q]
+        while todo:
+            for n in succ.get(todo.pop(), ()):
+                if n not in seen:
+                    seen.add(n)
+                    todo.append(n)
+        return seen
+    reach = {q: reach_from(q) for q in succ}
+
+    def cycle(F):
+        return {q for q in reach[F.qualname]
+                if F.qualname in reach.get(q, ()) and q != F.qualname}
+    for F in bfuncs:
         if only is not None and F.name not in only:
             continue
-        if not any(isinstance(g, Func) and g.qualname == RESERVE
-                   for c in ctx.prog.calls_in(F)
-                   for g in ctx.prog.resolve_call(c, F)):
+        cyc = {q for q in cycle(F) if not prog.funcs[q].is_public and
+               prog.funcs[q] not in stop}
+        if not (reserves(F) or any(reserves(prog.funcs[q]) for q in cyc)):
             continue
 
-        def reserves(g):
-            return any(isinstance(h, Func) and h.qualname == RESERVE
-                       for c in ctx.prog.calls_in(g)
-                       for h in ctx.prog.resolve_call(c, g))
-
-        def inline(g):
+        def inline(g, F=F, cyc=cyc):
             # other functions that reserve (for other files) stay opaque:
             # each is analysed as a root of its own
+            if g.qualname in cyc:
+                return True
             return g.cls == R.builder and not g.is_public and g not in stop \
                 and g.qualname != F.qualname and not reserves(g)
         sg = ctx.E.super(F, inline)
-        acqs = [x for x in sg.nodes if Q.is_done(x, RESERVE) and
-                x.frame.parent is None]
+        acqs = [x for x in sg.nodes if Q.is_done(x, RESERVE)]
         for a in acqs:
             sites += 1
             res = _typestate(
